@@ -8,6 +8,7 @@ open GM
 def handleBlocks : List String → String
   | ["parse", v] => hx v fun b => GM.Blocks.dump b
   | ["lines", v] => hx v fun b => GM.Blocks.checkLines b
+  | ["quotesim", v] => hx v fun b => GM.Blocks.quoteSim b
   | _ => bad
 
 end Driver
